@@ -83,6 +83,39 @@ CHECKS = {
         "Trusted: M4; real save/load as the freshness reference. Depth- and alphabet-bounded.",
         "DESIGN.md 4 C13",
     ),
+    "C06": (
+        "model_checking",
+        "exhaustive enumeration of every counter state x configuration with the advance threshold "
+        "extracted from the real add() by bit-pattern bisection; exact Markov-chain propagation "
+        "(probabilistic model checking of the DTMC read off the implementation); all rand_ptr states; "
+        "BFS lower-bound invariant",
+        "For every counter value 0..255 (log8, 25 configurations) and 0..65535 (log16) the real "
+        "add()'s advance probability is extracted to one ulp and compared with base^-(c-nr) and with "
+        "the unbiasedness identity; the exact distribution after N unit adds is propagated from those "
+        "thresholds (E[estimate] = N); every rand_ptr value 0..2048 through add and add_ngram shows "
+        "that rand_nums[ptr] is consumed, the pointer stored, and that refills are the next blocks of "
+        "numba's generator (never recycled); est >= min(true, nr+1) holds in every state of log "
+        "history graphs with enumerated draws.",
+        "Draws are injected through the documented rand_nums/rand_ptr fields; numba's generator is "
+        "seeded through a harness-side jitted np.random.seed. Uniformity of numba's generator itself "
+        "is trusted.",
+        "DESIGN.md 4 C06",
+    ),
+    "C17": (
+        "model_checking",
+        "exhaustive enumeration of register histograms (families around every estimator switch point, "
+        "complete for small precisions / all precisions in the thorough tier) through the real query() "
+        "against a reference HLL++ estimator",
+        "The estimator depends on the registers only through their histogram (checked on shuffled "
+        "arrays); histogram families that sweep the number of zero registers across threshold[p], the "
+        "raw estimate across 5m, extreme and mixed cases and real key sets are written into a real "
+        "sketch for every p in 7..16 and query() is compared (1e-9) with the reference estimator "
+        "computed from the shipped tables; either branch is accepted within 1e-9 of a switch point. "
+        "Every (precision, branch) pair must be reached. Table sanity identities are checked.",
+        "Reference estimator M6 (vf/models/hll.py) written from the HLL++ description; tables read "
+        "from hll_constants.py by precision.",
+        "DESIGN.md 4 C17",
+    ),
     "C09": (
         "model_checking",
         "exhaustive enumeration of counter pairs through the real merge kernels: all 256x256 log8 "
